@@ -20,6 +20,13 @@ use vh::json::J;
 // universe of the child
 // ---------------------------------------------------------------------------------------------
 
+/// Injected user panics fire while this is set; the Caught cells clear it to use the mock again.
+static ARMED: std::sync::atomic::AtomicBool = std::sync::atomic::AtomicBool::new(true);
+
+fn armed() -> bool {
+    ARMED.load(std::sync::atomic::Ordering::SeqCst)
+}
+
 pub struct BadDebug;
 
 impl core::fmt::Debug for BadDebug {
@@ -32,7 +39,10 @@ pub struct BadClone;
 
 impl Clone for BadClone {
     fn clone(&self) -> Self {
-        panic!("INJECTED: return value Clone");
+        if armed() {
+            panic!("INJECTED: return value Clone");
+        }
+        BadClone
     }
 }
 
@@ -45,7 +55,10 @@ pub trait K: Sized {
     fn r(&self, x: u8) -> u32;
     fn d(&self, x: u8) -> u32 {
         let _ = x;
-        panic!("INJECTED: default body");
+        if armed() {
+            panic!("INJECTED: default body");
+        }
+        13
     }
     fn dbg(&self, x: BadDebug) -> u32;
     fn cl(&self) -> BadClone;
@@ -74,7 +87,10 @@ pub trait K: Sized {
 }
 
 pub fn real_r(_: &impl core::any::Any, _: u8) -> u32 {
-    panic!("INJECTED: real function");
+    if armed() {
+        panic!("INJECTED: real function");
+    }
+    12
 }
 
 #[derive(Clone, Copy, Debug, PartialEq, Eq, PartialOrd, Ord)]
@@ -205,9 +221,11 @@ enum Topo {
     OriginalOnWorkerThread,
     /// user panic caught with catch_unwind; the mock is used and verified afterwards
     Caught,
+    /// like Caught, and the very call that panicked is repeated without the injected panic
+    CaughtRetry,
 }
 
-const TOPOS: [Topo; 12] = [
+const TOPOS: [Topo; 13] = [
     Topo::Plain,
     Topo::CloneOutlives,
     Topo::CloneDiesFirst,
@@ -220,6 +238,7 @@ const TOPOS: [Topo; 12] = [
     Topo::OnWorkerThread,
     Topo::OriginalOnWorkerThread,
     Topo::Caught,
+    Topo::CaughtRetry,
 ];
 
 fn applicable(o: Origin, t: Topo) -> bool {
@@ -232,6 +251,7 @@ fn applicable(o: Origin, t: Topo) -> bool {
     }
     match t {
         Topo::Caught => o.is_user() && !matches!(o, Origin::UserBefore | Origin::UserAfter | Origin::CloneErrorThenUserPanic),
+        Topo::CaughtRetry => matches!(o, Origin::Matcher | Origin::Answer | Origin::RealFn | Origin::DefaultBody | Origin::RetClone),
         _ => true,
     }
 }
@@ -242,9 +262,19 @@ fn build(origin: Origin) -> Unimock {
     c.push(KMock::m.each_call(matching!(0)).returns(1u32).n_times(1));
     match origin {
         Origin::Matcher => c.push(KMock::pm.each_call(&|m| {
-            m.func(|_, _| panic!("INJECTED: matcher"));
+            m.func(|_, _| {
+                if armed() {
+                    panic!("INJECTED: matcher");
+                }
+                true
+            });
         }).returns(2u32)),
-        Origin::Answer => c.push(KMock::pa.each_call(matching!(_)).answers(&|_, _| panic!("INJECTED: answer function"))),
+        Origin::Answer => c.push(KMock::pa.each_call(matching!(_)).answers(&|_, _| {
+            if armed() {
+                panic!("INJECTED: answer function");
+            }
+            11
+        })),
         Origin::RealFn => c.push(KMock::r.each_call(matching!(_)).applies_unmocked()),
         Origin::ArgDebug => c.push(KMock::dbg.each_call(&|m| {
             m.func(|_, _| false);
@@ -414,7 +444,7 @@ fn child(origin: Origin, topo: Topo, met: bool) -> ! {
             println!("JOINED: {}", if r.is_err() { "err" } else { "ok" });
             std::process::exit(0);
         }
-        Topo::Caught => {
+        Topo::Caught | Topo::CaughtRetry => {
             let u = original;
             let r = std::panic::catch_unwind(std::panic::AssertUnwindSafe(|| act(&u, origin, met)));
             println!("CAUGHT: {}", if r.is_err() { "err" } else { "ok" });
@@ -422,6 +452,25 @@ fn child(origin: Origin, topo: Topo, met: bool) -> ! {
             if !met {
                 let v = u.m(0);
                 println!("USABLE: {v}");
+            }
+            // ... also for the very call that panicked: the same action, now without the injected
+            // panic, must be answered as configured
+            if topo == Topo::CaughtRetry {
+                ARMED.store(false, std::sync::atomic::Ordering::SeqCst);
+                let r = std::panic::catch_unwind(std::panic::AssertUnwindSafe(|| match origin {
+                    Origin::Matcher => u.pm(1),
+                    Origin::Answer => u.pa(0),
+                    Origin::RealFn => u.r(0),
+                    Origin::DefaultBody => u.d(0),
+                    _ => {
+                        let _ = u.cl();
+                        14
+                    }
+                }));
+                match r {
+                    Ok(v) => println!("RETRY: ok {v}"),
+                    Err(p) => println!("RETRY: err {}", vh::obs::payload_to_string(p).replace('\n', " | ")),
+                }
             }
             let r = std::panic::catch_unwind(std::panic::AssertUnwindSafe(move || drop(u)));
             match r {
@@ -496,7 +545,7 @@ fn judge(origin: Origin, topo: Topo, met: bool, r: &CellResult) -> Result<(), St
         return Err(format!("harness expectation broken: {}", r.stdout.trim()));
     }
     match topo {
-        Topo::Caught => {
+        Topo::Caught | Topo::CaughtRetry => {
             if r.status != Some(0) {
                 return Err(format!("caught cell exited with {:?}", r.status));
             }
@@ -506,8 +555,22 @@ fn judge(origin: Origin, topo: Topo, met: bool, r: &CellResult) -> Result<(), St
             if !met && !r.stdout.contains("USABLE: 1") {
                 return Err(format!("the mock did not answer after the caught panic: {}", r.stdout));
             }
+            let retried = topo == Topo::CaughtRetry;
+            if retried {
+                let want = match origin {
+                    Origin::Matcher => "RETRY: ok 2",
+                    Origin::Answer => "RETRY: ok 11",
+                    Origin::RealFn => "RETRY: ok 12",
+                    Origin::DefaultBody => "RETRY: ok 13",
+                    _ => "RETRY: ok 14",
+                };
+                if !r.stdout.lines().any(|l| l == want) {
+                    let got = r.stdout.lines().find(|l| l.starts_with("RETRY:")).unwrap_or("no retry line");
+                    return Err(format!("after the caught user panic the same call (now without the injected panic) must be answered as configured ({want}), got {got:?}"));
+                }
+            }
             // verdict reflects the calls actually matched: user panics are not recorded
-            let never_called = matches!(origin, Origin::Matcher | Origin::ArgDebug | Origin::MatcherOrdered);
+            let never_called = matches!(origin, Origin::ArgDebug | Origin::MatcherOrdered) || (origin == Origin::Matcher && !retried);
             let verdict = r.stdout.lines().find(|l| l.starts_with("VERDICT:")).unwrap_or("");
             if never_called {
                 if !(verdict.starts_with("VERDICT: failed") && verdict.contains("was never called") && !verdict.contains("INJECTED")) {
@@ -518,7 +581,8 @@ fn judge(origin: Origin, topo: Topo, met: bool, r: &CellResult) -> Result<(), St
             }
             // (the caught verification failure of the never-called cells is reported by the panic
             // hook too: it is the harness catching it, not a double panic)
-            if r.reports.len() != 1 + never_called as usize || !r.reports[0].contains(origin.first_report()) {
+            let retry_failed = r.stdout.contains("RETRY: err");
+            if r.reports.len() != 1 + never_called as usize + retry_failed as usize || !r.reports[0].contains(origin.first_report()) {
                 return Err(format!("expected the injected panic report first, got {:?}", r.reports));
             }
             Ok(())
